@@ -298,9 +298,9 @@ def gen_dens(ctx, count):
         else:
             tkind = rng.choice(STACKS)
             spec = gen_message(rng, "normal", True, 1, 4000, tkind, gen_stack(rng, tkind))
-            if tkind in ("lognormal", "log10normal", "loguniform", "logexp"):
-                # moderate spread so that quadrature in the transformed space is reliable
-                spec["params"] = [[hx(dy(rng, -1, 1))], [hx(rng.choice([0.25, 0.5, 0.75, 1.0]))]]
+            # moderate location/spread so that quadrature in the transformed space is reliable
+            # (under phi the density is unbounded at the ends of the support when sigma > 1)
+            spec["params"] = [[hx(dy(rng, -1, 1))], [hx(rng.choice([0.25, 0.5, 0.75, 1.0]))]]
         cases.append({"kind": "dens", "msg": spec, "q": [rng.uniform(0.08, 0.92) for _ in range(3)]})
     return cases
 
@@ -429,6 +429,8 @@ def case_classes(c, res, aspect):
         if aspect == "zeros-nat" and a.get("t") is not None and base_of(a)["fam"] == "normal":
             cl.append("transformed-normal-zeros-like")
     elif c["kind"] == "proj":
+        if aspect == "exception" and c["fam"] == "beta":
+            cl.append("beta-project-raises")
         if c.get("t") is not None:
             if aspect == "stats" and any(t[0] != "shift" or (unhex(t[1]), unhex(t[2])) != (0.0, 1.0) for t in c["t"]["stack"]):
                 cl.append("transformed-project-raw-samples")
@@ -480,9 +482,10 @@ def oracle_alg(c, res):
     scale = nat_scale(*all_nats)
     if fam == "fixed":
         # arithmetic on a fixed message is the identity: every law holds with "equals a"
+        exprs = dict((nm, e) for nm, e in c["exprs"])
         for name in R:
-            if ok(name) and name not in ("d", "r") or (ok(name) and law != "scalar"):
-                for asp in compare_full(desc(name), a, scale):
+            if ok(name) and "sdiv" not in json.dumps(exprs[name]):
+                for asp in compare_full(desc(name), env[leftmost(exprs[name])], scale):
                     out.append((asp, "%s: fixed message changed in %s" % (name, asp)))
         return out
 
@@ -553,6 +556,12 @@ def oracle_alg(c, res):
         if valid(a):
             same("f", a, "from_natural_parameters(natural_parameters(a)) vs a")
     return out
+
+
+def leftmost(e):
+    while e[0] != "var":
+        e = e[1]
+    return e[1]
 
 
 def dict_with_nat_of(x, a):
@@ -763,7 +772,7 @@ def coq_alg(c, res):
 
 def coq_proj(c, res):
     if "ok" not in res:
-        return None
+        return "CProjExc %s" % CFAM[c["fam"]] if c.get("t") is None else None
     d = res["ok"]
     b = base_of(d)
     X = c["samples"]
